@@ -548,6 +548,16 @@ fn run_rib_case(case: &Val) -> Val {
                 };
                 changes = w.table.update_nexthop_validity(nh, l[2].bool());
             }
+            // [7, counter, addr]: PeerSession::sync_prefix_counters of the daemon, counter := prefixes
+            // the RIB holds from the peer (route_stats received)
+            7 => {
+                let n = w
+                    .table
+                    .peer_stats(&addr_of(l[2].u64()))
+                    .map(|it| it.filter(|(f, _)| *f == fam).map(|(_, s)| s.received).sum::<u64>())
+                    .unwrap_or(0);
+                w.ctr(l[1].u64()).store(n, Ordering::Relaxed);
+            }
             5 => w.table.start_deferral(fam),
             6 => changes = w.table.end_deferral(fam),
             t => panic!("verif: bad op tag {}", t),
